@@ -32,15 +32,14 @@ InputOf(rec) == IF "rep" \in DOMAIN rec THEN [i \in 1..rec.rep[2] |-> rec.rep[1]
 RegsOf(rec) == [input |-> InputOf(rec), ecl |-> rec.opts.ecl, mode |-> rec.opts.mode, version |-> rec.opts.version, mask |-> rec.opts.mask]
 
 (* ---------------- Build: BuildStart .. Return composed ---------------- *)
-EvSize(rec) == IF rec.ev \in {"Build", "Corrupt"} THEN (IF rec.out.kind = "Ok" /\ rec.lite = 0 THEN rec.out.size ELSE 0)
+EvSize(rec) == IF rec.ev \in {"Build", "Corrupt", "HBuild"} THEN (IF rec.out.kind = "Ok" /\ rec.lite = 0 THEN rec.out.size ELSE 0)
                ELSE IF rec.ev \in {"Blank", "MaskOp", "Candidates"} THEN rec.size
                ELSE 0
 NextLay(cur, rec) == LET v == VersionOfSize(EvSize(rec)) IN
                      IF v = 0 THEN cur ELSE IF cur.v = v THEN cur ELSE Layout(v)
 
-BuildOk(k, rec, ly, s) ==
-  LET b == RegsOf(rec)
-      out == rec.out
+BuildOk(k, rec, b, ly, s) ==
+  LET out == rec.out
       n == out.size
       o == [n |-> n, M |-> UnpackVals(n, out.vals), T |-> UnpackTypes(n, out.types),
             ecl |-> out.ecl, mask |-> out.mask, version |-> out.version, mode |-> out.mode, tail_clean |-> out.tail_clean]
@@ -66,12 +65,12 @@ BuildOk(k, rec, ly, s) ==
         /\ Require(MinimalVersion(b, o, d, ly), k, rec, "C05", "version")
         /\ Require(DataCodewordsISO(b, o, d, ly), k, rec, "C06", "data bits")
         /\ Require(rec.grp = 0 \/ s.grp # rec.grp \/ s.U = U, k, rec, "C08", "unmasked symbol differs from the same payload under another mask")
-  IN IF checks THEN [grp |-> rec.grp, U |-> IF rec.grp = 0 THEN <<>> ELSE IF s.grp = rec.grp THEN s.U ELSE U]
+  IN IF checks THEN [s EXCEPT !.grp = rec.grp, !.U = IF rec.grp = 0 THEN <<>> ELSE IF s.grp = rec.grp THEN s.U ELSE U]
      ELSE s
 
 \* outcome and reported fields only (no matrix in the event): used for the bulk of C05/C10 lengths
-BuildLite(k, rec, s) ==
-  LET b == RegsOf(rec) out == rec.out
+BuildLite(k, rec, b, s) ==
+  LET out == rec.out
       mode == WantMode(b) e == WantLevel(b)
       minv == MinVersion(mode, e, Len(b.input))
       wantv == IF b.version >= 1 THEN b.version ELSE minv
@@ -83,16 +82,15 @@ BuildLite(k, rec, s) ==
         /\ Require(out.tail_clean, k, rec, "C03", "module outside the size x size square modified")
   IN IF checks THEN s ELSE s
 
-BuildStep(k, rec, ly, s) ==
-  LET b == RegsOf(rec) IN
+BuildStep(k, rec, b, ly, s) ==
   IF ~InDomain(b) THEN s                                        \* BuildUnspecified: no claim
-  ELSE IF rec.out.kind = "Ok" /\ rec.lite = 1 THEN BuildLite(k, rec, s)
+  ELSE IF rec.out.kind = "Ok" /\ rec.lite = 1 THEN BuildLite(k, rec, b, s)
   ELSE IF rec.out.kind = "Ok" THEN
      IF VersionOfSize(rec.out.size) = 0 \/ ly.v # VersionOfSize(rec.out.size)
      THEN (IF Require(FALSE, k, rec, "C03", "side is not 17+4v") THEN s ELSE s)
      ELSE IF ExpectedOutcome(b) # "Ok"
-     THEN (IF Require(FALSE, k, rec, "C05", "symbol returned where an error is documented") THEN BuildOk(k, rec, ly, s) ELSE s)
-     ELSE BuildOk(k, rec, ly, s)
+     THEN (IF Require(FALSE, k, rec, "C05", "symbol returned where an error is documented") THEN BuildOk(k, rec, b, ly, s) ELSE s)
+     ELSE BuildOk(k, rec, b, ly, s)
   ELSE IF rec.out.kind = "Err" THEN
      (IF Require(ExpectedOutcome(b) = rec.out.why, k, rec, "C05", "error outcome") THEN s ELSE s)
   ELSE (IF Require(FALSE, k, rec, "C10", rec.out.kind) THEN s ELSE s)     \* Panic / Timeout match no action
@@ -324,8 +322,46 @@ WasmQrStep(k, rec) ==
            ELSE /\ Require(rec.len > 0 /\ rec.all01 = 1 /\ rec.side * rec.side = rec.len, k, rec, "C17", "matrix export is not size*size bytes of 0/1")
                 /\ Require(nat.kind # "Ok" \/ (rec.side = nat.size /\ rec.vals = nat.vals), k, rec, "C17", "matrix export differs from the native build with default options"))
 
+(* ---------------- histories: New / Set / Build on several builders and threads (C14) ---------------- *)
+\* st.regs: sequence of <<bid, registers>>; st.memo: sequence of <<registers, result>> of the builds of this history;
+\* st.rmemo: sequence of <<qrid, renderer, hash>>.  A new history (grp) starts from empty state.
+Fresh(s, rec) == IF s.grp = rec.grp THEN s ELSE [grp |-> rec.grp, U |-> <<>>, regs |-> <<>>, memo |-> <<>>, rmemo |-> <<>>]
+Lookup(seq, key) == LET hits == SelectSeq(seq, LAMBDA e : e[1] = key) IN IF Len(hits) = 0 THEN <<>> ELSE hits[Len(hits)]
+HNewStep(k, rec, s0) == LET s == Fresh(s0, rec) IN
+  [s EXCEPT !.regs = Append(SelectSeq(s.regs, LAMBDA e : e[1] # rec.bid), <<rec.bid, NewRegs(rec.input)>>)]
+\* SetMode / SetEcl / SetVersion / SetMask: overwrite one register, last value wins
+HSetStep(k, rec, s0) == LET s == Fresh(s0, rec) cur == Lookup(s.regs, rec.bid) IN
+  IF cur = <<>> THEN (IF Require(FALSE, k, rec, "TOOL", "setter on an unknown builder") THEN s ELSE s)
+  ELSE [s EXCEPT !.regs = Append(SelectSeq(s.regs, LAMBDA e : e[1] # rec.bid), <<rec.bid, [cur[2] EXCEPT ![rec.opt] = rec.val]>>)]
+\* BuildStart .. Return with the registers the MODEL holds for that builder; equal registers, equal results (any thread)
+HBuildStep(k, rec, ly, s0) == LET s == Fresh(s0, rec) cur == Lookup(s.regs, rec.bid) IN
+  IF cur = <<>> THEN (IF Require(FALSE, k, rec, "TOOL", "build on an unknown builder") THEN s ELSE s)
+  ELSE LET b == cur[2]
+           prev == Lookup(s.memo, b)
+           same == prev = <<>> \/ prev[2] = rec.out
+           s1 == BuildStep(k, [rec EXCEPT !.grp = 0], b, ly, s)      \* every pipeline property, on the model's registers
+           o == rec.out
+           reflects == IF o.kind = "Ok" THEN /\ ExpectedOutcome(b) = "Ok" /\ o.ecl = WantLevel(b)
+                                            /\ (b.mask < 0 \/ o.mask = b.mask) /\ (b.version < 1 \/ o.version = b.version) /\ (b.mode < 0 \/ o.mode = b.mode)
+                       ELSE o.kind # "Err" \/ ExpectedOutcome(b) = o.why
+       IN IF /\ Require(reflects, k, rec, "C14", "build does not reflect the final option values of its builder (last value wins, nothing else leaks in)")
+             /\ Require(same, k, rec, "C14", "two builds with the same input and final option values returned different results")
+          THEN [s1 EXCEPT !.grp = rec.grp, !.memo = IF prev = <<>> THEN Append(s.memo, <<b, rec.out>>) ELSE s.memo]
+          ELSE [s1 EXCEPT !.grp = rec.grp]
+HRenderStep(k, rec, s0) == LET s == Fresh(s0, rec)
+                               key == <<rec.qrid, rec.renderer>>
+                               prev == Lookup(s.rmemo, key) IN
+  IF /\ Require(rec.qr_unchanged = 1, k, rec, "C14", "rendering modified the QR code")
+     /\ Require(prev = <<>> \/ prev[2] = rec.hash, k, rec, "C14", "two renderings of the same QR code with the same options differ")
+  THEN [s EXCEPT !.rmemo = IF prev = <<>> THEN Append(s.rmemo, <<key, rec.hash>>) ELSE s.rmemo]
+  ELSE s
+
 StepOf(k, rec, ly, s) ==
-  CASE rec.ev = "Build" -> BuildStep(k, rec, ly, s)
+  CASE rec.ev = "HNew" -> HNewStep(k, rec, s)
+    [] rec.ev = "HSet" -> HSetStep(k, rec, s)
+    [] rec.ev = "HBuild" -> HBuildStep(k, rec, ly, s)
+    [] rec.ev = "HRender" -> HRenderStep(k, rec, s)
+    [] rec.ev = "Build" -> BuildStep(k, rec, RegsOf(rec), ly, s)
     [] rec.ev = "WasmSvg" -> (IF WasmSvgStep(k, rec) THEN s ELSE s)
     [] rec.ev = "WasmQr" -> (IF WasmQrStep(k, rec) THEN s ELSE s)
     [] rec.ev = "FileOp" -> (IF FileStep(k, rec) THEN s ELSE s)
@@ -349,7 +385,7 @@ StepOf(k, rec, ly, s) ==
     [] rec.ev = "Candidates" -> (IF CandStep(k, rec, ly) THEN s ELSE s)
     [] OTHER -> (IF Require(FALSE, k, rec, "TOOL", "unknown event kind") THEN s ELSE s)
 
-Init == l = 1 /\ lay = NoLayout /\ st = [grp |-> 0, U |-> <<>>] /\ TLCSet(1, 0)
+Init == l = 1 /\ lay = NoLayout /\ st = [grp |-> 0, U |-> <<>>, regs |-> <<>>, memo |-> <<>>, rmemo |-> <<>>] /\ TLCSet(1, 0)
 Step == /\ l <= Len(Rec)
         /\ lay' = NextLay(lay, Rec[l])
         /\ st' = StepOf(l, Rec[l], lay', st)
